@@ -444,6 +444,15 @@ OBLIGATIONS.append(Ob("wall_output_and_file_header", ob_wall_output, tier="quick
                       encodes=["hypnotoad.core.equilibrium:Equilibrium.__init__", "hypnotoad.core.mesh:BoutMesh.writeGridfile"],
                       desc="closed wall = input wall + first point (both columns, order kept); closed_wall_R/Z, nx, ny (without guards), y_boundary_guards, Bt_axis, psi_axis, psi_bdry written from their sources",
                       stubs=["options factory -> placeholder", "DataFile.write -> recorder"], bounds="4 wall vertices, all values symbolic"))
+def _wall_points_isolation(env):
+    import harness.c13 as m   # resolved at call time
+    return m._mk_isolation("addPointAtWallToContours")(env)
+
+
+OBLIGATIONS.append(Ob("wall_points_survive_process_isolation", _wall_points_isolation, tier="quick", family="wall points",
+                      desc="a contour extended to the wall inside a worker process is the contour the wall point is inserted into (real addPointAtWallToContours with a map "
+                           "that copies arguments and results = with a serial map; shared with C13)",
+                      encodes=["hypnotoad.core.mesh:MeshRegion.addPointAtWallToContours"], bounds="2 contours of 4 points; wall at lower/upper/both ends", max_paths=400))
 OBLIGATIONS.append(Ob("penalty_mask_nonconvex_wall", ob_penalty_baffle, tier="quick", family="calcPenaltyMask",
                       encodes=["hypnotoad.core.mesh:MeshRegion.calcPenaltyMask", "hypnotoad.core.equilibrium:find_intersections"],
                       desc="box with a baffle: inside/outside by the parity of wall crossings (faces reached through 2 and 3 crossings), cut-cell fraction",
